@@ -6,6 +6,7 @@ import (
 	"archive/tar"
 	"bytes"
 	"fmt"
+	"reflect"
 	"sort"
 	"strings"
 	"sync"
@@ -52,13 +53,19 @@ func (b *verifBlob) snapshot() ([][2]int64, []error) {
 	return append([][2]int64(nil), b.calls...), append([]error(nil), b.errs...)
 }
 
-func (s *verifStack) waiterClosed() bool {
-	select {
-	case <-s.l.prefetchWaiter.doneCh:
-		return true
-	default:
-		return false
+// verifInstallBlob puts the recording blob in front of the layer's remote.Blob.  The slot is found by
+// its TYPE (the shallowest settable value of interface type remote.Blob below the resolved layer), not
+// by field names; nil = not found, the harness then runs without the recorder (degraded: the blob.Cache
+// arguments are taken from Layer.Info().PrefetchSize, prefetch/wait ops are not sent to the model).
+func verifInstallBlob(lr Layer) *verifBlob {
+	want := reflect.TypeOf((*remote.Blob)(nil)).Elem()
+	v := verifc02.FindValue(lr, func(v reflect.Value) bool { return v.Type() == want && v.CanSet() && !v.IsNil() }, 5)
+	if !v.IsValid() {
+		return nil
 	}
+	vb := &verifBlob{Blob: v.Interface().(remote.Blob)}
+	v.Set(reflect.ValueOf(vb))
+	return vb
 }
 
 // regularNames returns every path of the view that is a regular file, with the index of its file.
@@ -158,24 +165,36 @@ func (s *verifStack) expectedRange(cfg int64) (int64, bool) {
 	return cfg, true
 }
 
-func (s *verifStack) emitPrefetch(out *verifutil.Out, c verifC15Case, vb *verifBlob, ncallsBefore int, err error, u string) {
-	calls, errs := vb.snapshot()
+// emitPrefetch sends one Prefetch call to the model. closed = the prefetch waiter was released when the
+// call returned (observed through the exported API: a WaitForPrefetchCompletion issued right after
+// returns nil exactly then; nothing but its own timeout releases the waiter afterwards).
+func (s *verifStack) emitPrefetch(out *verifutil.Out, c verifC15Case, vb *verifBlob, ncallsBefore int, err error, u string, closed bool) {
 	call, blobok := "none", 1
-	if len(calls) > ncallsBefore {
-		call = fmt.Sprintf("%d:%d", calls[ncallsBefore][0], calls[ncallsBefore][1])
-		if errs[ncallsBefore] != nil {
-			blobok = 0
+	if vb != nil {
+		calls, errs := vb.snapshot()
+		if len(calls) > ncallsBefore {
+			call = fmt.Sprintf("%d:%d", calls[ncallsBefore][0], calls[ncallsBefore][1])
+			if errs[ncallsBefore] != nil {
+				blobok = 0
+			}
 		}
 	}
 	w := 0
-	if s.waiterClosed() {
+	if closed {
 		w = 1
 	}
 	res := fmt.Sprintf("failed waiter=%d call=%s", w, call)
 	if err == nil {
 		res = fmt.Sprintf("ok waiter=%d call=%s stored=%s", w, call, s.showKeys(s.wc.committed()))
 	}
-	out.Emit(fmt.Sprintf("prefetch %d %d %d %d %d %s", c.cfgSize, c.threshold, s.cfg.regChunk, s.cfg.prefetchChunk, blobok, u), res)
+	op := fmt.Sprintf("prefetch %d %d %d %d %d %s", c.cfgSize, c.threshold, s.cfg.regChunk, s.cfg.prefetchChunk, blobok, u)
+	if vb == nil || s.degraded {
+		out.Comment(op + " -> " + res)
+		out.Count("degraded-prefetch-not-modelled")
+		s.resync(out)
+		return
+	}
+	out.Emit(op, res)
 	if err != nil {
 		s.resync(out)
 	}
@@ -186,58 +205,53 @@ func verifRunC15(t *testing.T, out *verifutil.Out, rnd *verifutil.Rand, s *verif
 		label, c.kind, c.cfgSize, c.threshold, s.noPrefetch, s.prefetchOff, len(s.blob), s.opts, s.cfg))
 	s.meta.Out = out
 	s.emitLayout(out)
-	vb := &verifBlob{Blob: s.l.blob.Blob}
-	s.l.blob.Blob = vb
+	vb := verifInstallBlob(s.lref)
+	modelWaits := vb != nil && !s.degraded
 	r, doPrefetch := s.expectedRange(c.cfgSize)
 	regs := s.regularNames()
 
 	s.wc.reset()
 	s.rt.ResetLog()
 	var perr error
+	pu := "ok" // what the lower layers did during the decompression walk, as far as it is observable
 	switch c.kind {
 	case "normal":
-		verifWatch(out, "prefetch", 120*time.Second, func() { perr = s.l.Prefetch(c.cfgSize) })
-		s.emitPrefetch(out, c, vb, 0, perr, "ok")
+		verifWatch(out, "prefetch", 120*time.Second, func() { perr = s.lref.Prefetch(c.cfgSize) })
 		if perr != nil {
 			out.Fail("prefetch-failed-without-fault", fmt.Sprintf("Prefetch(%d) failed with a healthy registry: %v [%s | %s]", c.cfgSize, perr, s.opts, s.cfg))
 		}
 	case "fail-blob":
 		s.rt.Set(true)
-		verifWatch(out, "prefetch", 120*time.Second, func() { perr = s.l.Prefetch(c.cfgSize) })
+		verifWatch(out, "prefetch", 120*time.Second, func() { perr = s.lref.Prefetch(c.cfgSize) })
 		s.rt.Set(false)
-		u := "ok"
-		if _, errs := vb.snapshot(); perr != nil && len(errs) > 0 && errs[0] == nil {
-			u = "fail"
+		if vb != nil {
+			if _, errs := vb.snapshot(); perr != nil && len(errs) > 0 && errs[0] == nil {
+				pu = "fail"
+			}
 		}
-		s.emitPrefetch(out, c, vb, 0, perr, u)
 	case "fail-decompress":
-		vb.mu.Lock()
-		vb.skip = true
-		vb.mu.Unlock()
-		s.rt.Set(true)
-		verifWatch(out, "prefetch", 120*time.Second, func() { perr = s.l.Prefetch(c.cfgSize) })
-		s.rt.Set(false)
-		u := "ok"
-		if perr != nil {
-			u = "fail"
+		if vb != nil {
+			vb.mu.Lock()
+			vb.skip = true
+			vb.mu.Unlock()
 		}
-		s.emitPrefetch(out, c, vb, 0, perr, u)
+		s.rt.Set(true)
+		verifWatch(out, "prefetch", 120*time.Second, func() { perr = s.lref.Prefetch(c.cfgSize) })
+		s.rt.Set(false)
+		if perr != nil && vb != nil {
+			pu = "fail"
+		}
 	case "stall-timeout", "stall-release", "async":
 		gate := make(chan struct{})
 		s.rt.SetStall(gate)
-		if c.kind == "stall-timeout" {
-			s.res.prefetchTimeout = 300 * time.Millisecond
-		} else {
-			s.res.prefetchTimeout = 60 * time.Second
-		}
 		pdone := make(chan struct{})
 		go func() {
-			perr = s.l.Prefetch(c.cfgSize)
+			perr = s.lref.Prefetch(c.cfgSize)
 			close(pdone)
 		}()
 		// a second, concurrent Prefetch: sync.Once makes it wait for the first and do nothing
 		p2done := make(chan error, 1)
-		go func() { p2done <- s.l.Prefetch(c.cfgSize) }()
+		go func() { p2done <- s.lref.Prefetch(c.cfgSize) }()
 		// wait until the prefetch sits in the stalled fetch (or has finished because nothing had to
 		// be fetched)
 		reached := false
@@ -263,14 +277,13 @@ func verifRunC15(t *testing.T, out *verifutil.Out, rnd *verifutil.Rand, s *verif
 		nw := 1 + rnd.Intn(3)
 		werrs := make([]error, nw)
 		var wg sync.WaitGroup
-		closedBefore := s.waiterClosed()
 		launch := func() {
 			for i := 0; i < nw; i++ {
 				i := i
 				wg.Add(1)
 				go func() {
 					defer wg.Done()
-					werrs[i] = s.l.WaitForPrefetchCompletion()
+					werrs[i] = s.lref.WaitForPrefetchCompletion()
 				}()
 			}
 		}
@@ -297,16 +310,11 @@ func verifRunC15(t *testing.T, out *verifutil.Out, rnd *verifutil.Rand, s *verif
 			if ntimeout == 0 {
 				out.Fail("wait-nil-while-prefetch-stalled", fmt.Sprintf("%d WaitForPrefetchCompletion call(s) returned nil although the prefetch is stalled, below the async threshold, and nobody timed out [%s]", nw, s.cfg))
 			}
-			if !s.waiterClosed() {
-				out.Fail("waiter-open-after-timeout", "a wait timed out but the waiter is still open")
-			}
 			waitLine = [2]string{"wait t", fmt.Sprintf("%s closed=1", map[bool]string{true: "timedOut", false: "nil"}[ntimeout > 0])}
 			out.Count("wait-timeout")
 		case asyncExpected:
-			// the waiter was released before the download started
-			if !closedBefore {
-				out.Fail("waiter-not-released-above-async-threshold", fmt.Sprintf("prefetch size %d > threshold %d but the waiter is not released while the download runs", r, c.threshold))
-			}
+			// the waiter was released before the download started: the waits return nil although
+			// the download is still stalled
 			launch()
 			verifWatch(out, "wait", 60*time.Second, wg.Wait)
 			for _, e := range werrs {
@@ -333,7 +341,11 @@ func verifRunC15(t *testing.T, out *verifutil.Out, rnd *verifutil.Rand, s *verif
 		}
 		_ = waitAfter
 		if waitLine[0] != "" {
-			out.Emit(waitLine[0], waitLine[1])
+			if modelWaits {
+				out.Emit(waitLine[0], waitLine[1])
+			} else {
+				out.Comment(waitLine[0] + " -> " + waitLine[1])
+			}
 		}
 		if gate != nil {
 			close(gate)
@@ -345,26 +357,38 @@ func verifRunC15(t *testing.T, out *verifutil.Out, rnd *verifutil.Rand, s *verif
 		if p2 != nil {
 			out.Fail("second-prefetch-error", fmt.Sprintf("a concurrent second Prefetch returned %v", p2))
 		}
-		s.emitPrefetch(out, c, vb, 0, perr, "ok")
 		if perr != nil {
 			out.Fail("prefetch-failed-without-fault", fmt.Sprintf("Prefetch(%d) failed after a stall with a healthy registry: %v [%s | %s]", c.cfgSize, perr, s.opts, s.cfg))
 		}
-		s.res.prefetchTimeout = 2 * time.Second
 	}
 	nfetch, ranges := s.rt.Snapshot()
-	calls, _ := vb.snapshot()
-
-	// ---- oracle: the waiter is released once Prefetch has returned, whatever the outcome ----
-	if !s.waiterClosed() {
-		out.Fail("waiter-not-released-after-prefetch-returned", fmt.Sprintf("Prefetch returned (err=%v) but the prefetch waiter is still open [%s, %s]", perr, c.kind, s.cfg))
+	var calls [][2]int64
+	if vb != nil {
+		calls, _ = vb.snapshot()
+	} else if doPrefetch && perr == nil {
+		// degraded: the range as the layer itself reports it
+		calls = [][2]int64{{0, s.lref.Info().PrefetchSize}}
 	}
+
+	// ---- oracle: the waiter is released once Prefetch has returned, whatever the outcome: a wait
+	// issued now returns nil at once (only its own timeout could release the waiter from here on) ----
 	var werr error
 	t0 := time.Now()
-	verifWatch(out, "wait", 60*time.Second, func() { werr = s.l.WaitForPrefetchCompletion() })
+	verifWatch(out, "wait", 120*time.Second, func() { werr = s.lref.WaitForPrefetchCompletion() })
 	if werr != nil {
-		out.Fail("wait-error-after-prefetch-returned", fmt.Sprintf("WaitForPrefetchCompletion after Prefetch had returned (err=%v): %v after %v [%s]", perr, werr, time.Since(t0), c.kind))
+		out.Fail("waiter-not-released-after-prefetch-returned", fmt.Sprintf("Prefetch returned (err=%v) but the prefetch waiter was still open: WaitForPrefetchCompletion gave %v after %v [%s, %s]", perr, werr, time.Since(t0), c.kind, s.cfg))
 	}
-	out.Emit("wait -", fmt.Sprintf("%s closed=1", map[bool]string{true: "nil", false: "timedOut"}[werr == nil]))
+	s.emitPrefetch(out, c, vb, 0, perr, pu, werr == nil)
+	waitRes := fmt.Sprintf("%s closed=1", map[bool]string{true: "nil", false: "timedOut"}[werr == nil])
+	if modelWaits {
+		if werr == nil {
+			out.Emit("wait -", waitRes)
+		} else {
+			out.Emit("wait t", waitRes)
+		}
+	} else {
+		out.Comment("wait -> " + waitRes)
+	}
 
 	// ---- oracle: traffic ----
 	if !doPrefetch {
@@ -376,7 +400,7 @@ func verifRunC15(t *testing.T, out *verifutil.Out, rnd *verifutil.Rand, s *verif
 		}
 		out.Count("case-noprefetch")
 	} else {
-		if len(calls) != 1 || calls[0] != [2]int64{0, r} {
+		if (vb != nil || perr == nil) && (len(calls) != 1 || calls[0] != [2]int64{0, r}) {
 			out.Fail("prefetch-range-differs", fmt.Sprintf("blob.Cache calls %v, want one call (0,%d) [landmark=%d cfg=%d blob=%d]", calls, r, s.prefetchOff, c.cfgSize, len(s.blob)))
 		}
 		allowed := s.allowedAfterPrefetch(r)
@@ -417,15 +441,18 @@ func verifRunC15(t *testing.T, out *verifutil.Out, rnd *verifutil.Rand, s *verif
 	s.wc.reset()
 	s.rt.ResetLog()
 	var perr2 error
-	verifWatch(out, "prefetch-again", 60*time.Second, func() { perr2 = s.l.Prefetch(c.cfgSize + 7) })
+	verifWatch(out, "prefetch-again", 60*time.Second, func() { perr2 = s.lref.Prefetch(c.cfgSize + 7) })
 	n2, _ := s.rt.Snapshot()
-	calls2, _ := vb.snapshot()
+	calls2 := calls
+	if vb != nil {
+		calls2, _ = vb.snapshot()
+	}
 	if perr2 != nil || n2 != 0 || len(calls2) != len(calls) || len(s.wc.committed()) != 0 {
 		out.Fail("second-prefetch-not-a-noop", fmt.Sprintf("second Prefetch: err=%v, %d fetches, %d new blob.Cache calls, %d chunks stored", perr2, n2, len(calls2)-len(calls), len(s.wc.committed())))
 	}
 	cOnce := c
 	cOnce.cfgSize += 7
-	s.emitPrefetch(out, cOnce, vb, len(calls2), perr2, "ok")
+	s.emitPrefetch(out, cOnce, vb, len(calls2), perr2, "ok", true)
 
 	// ---- background fetch (with prioritized work arriving meanwhile), then everything is local ----
 	s.wc.reset()
@@ -456,7 +483,7 @@ func verifRunC15(t *testing.T, out *verifutil.Out, rnd *verifutil.Rand, s *verif
 	if bgFault {
 		s.rt.Set(true)
 	}
-	verifWatch(out, "bgfetch", 180*time.Second, func() { bgerr = s.l.BackgroundFetch() })
+	verifWatch(out, "bgfetch", 180*time.Second, func() { bgerr = s.lref.BackgroundFetch() })
 	s.rt.Set(false)
 	close(stop)
 	rwg.Wait()
@@ -485,7 +512,7 @@ func verifRunC15(t *testing.T, out *verifutil.Out, rnd *verifutil.Rand, s *verif
 	for i := range errs2 {
 		i := i
 		wg2.Add(1)
-		go func() { defer wg2.Done(); errs2[i] = s.l.BackgroundFetch() }()
+		go func() { defer wg2.Done(); errs2[i] = s.lref.BackgroundFetch() }()
 	}
 	verifWatch(out, "bgfetch-again", 60*time.Second, wg2.Wait)
 	if n3, _ := s.rt.Snapshot(); errs2[0] != nil || errs2[1] != nil || n3 != 0 || len(s.wc.committed()) != 0 {
@@ -615,6 +642,16 @@ func TestVerifC15(t *testing.T) {
 		s.close()
 		// the threshold is part of the resolver's configuration: bring the stack up again with it
 		cfg.asyncSize = c.threshold
+		// prefetch_timeout_sec (whole seconds): short where a wait is meant to time out, long where
+		// waiters are meant to block until the prefetch ends
+		switch c.kind {
+		case "stall-timeout":
+			cfg.timeout = time.Second
+		case "stall-release", "async":
+			cfg.timeout = 30 * time.Second
+		default:
+			cfg.timeout = 2 * time.Second
+		}
 		s, err = verifNewStack(t, ents, opts, cfg)
 		if err != nil {
 			out.Fail("stack-setup-failed", fmt.Sprintf("history %d: %v", h, err))
